@@ -193,8 +193,11 @@ func (l *LLA) Prepare(ifi *net.Interface) error {
 // Apply implements Plugin.
 func (l *LLA) Apply(ra *ndp.RouterAdvertisement) error {
 	// Only apply the option if Addr is set. It would not be set for
-	// point-to-point links, for example.
-	if l.Addr == nil {
+	// point-to-point links, for example. Hardware addresses which are not 48
+	// bits long (InfiniBand, IEEE 802.15.4, FireWire) are skipped as well:
+	// package ndp can only encode Ethernet-style addresses, so a router
+	// advertisement carrying one could never be sent.
+	if len(l.Addr) != 6 {
 		return nil
 	}
 
